@@ -1,4 +1,5 @@
 #![allow(dead_code, unused_imports, unused_variables)]
+mod c13;
 mod c16;
 mod kzg;
 mod pc;
@@ -55,6 +56,7 @@ fn main() {
                     "kzg10" => kzg::run(&c, &mut out),
                     "pc" => schemes::run(&c, &mut out),
                     "c16" => c16::run(&c, &mut out),
+                    "c13" => c13::run(&c, &mut out),
                     k => panic!("unknown case kind {}", k),
                 }));
                 writeln!(o, "case {}", c.id).unwrap();
